@@ -454,6 +454,16 @@ def f_id_after_odd_page(rng):
     return f"{lead}{rng.choice(['. ', '; ', ' ', '.\n'])}{follow}"
 
 
+def f_huge_pin(rng):
+    """a resolvable full citation with an ordinary page, followed by an id. / short / supra citation whose pin cite is ONE unbroken digit run around
+    the scan window (300 characters) and around CPython's int() limit (4300 digits)"""
+    n = rng.choice([299, 300, 301, 4299, 4300, 4301, 4400, 5000])
+    run = rng.choice("123456789") * n
+    lead = rng.choice([f"1 U.S. {num(rng)}.", f"{P(party(rng))} v. {P(party(rng))}, {num(rng)} {rng.choice(COMMON_REPORTERS)} {num(rng)} (1999)."])
+    follow = rng.choice([f"Id. at {run}", f"Id. at {run}.", f"Id., at {run}, {run}.", f"1 U.S., at {run}.", f"Foo, supra, at {run}."])
+    return f"{lead} {follow}"
+
+
 def f_long_digits(rng):
     n = rng.choice(DIGIT_RUNS)
     run = rng.choice("0123456789") * n
@@ -589,6 +599,7 @@ FAMILIES = {
     "long_backward": f_long_backward,
     "same_vol_page_series": f_same_vol_page_series,
     "short_no_volume": f_short_no_volume,
+    "huge_pin": f_huge_pin,
     "short_antecedent_elsewhere": f_short_antecedent_elsewhere,
     "reference_before": f_reference_before,
     "full": f_full,
@@ -620,7 +631,7 @@ DEFAULT_MIX = [
     ("supra", 5), ("id", 6), ("law", 5), ("journal", 4), ("placeholder", 3), ("cal_year", 5),
     ("string_cite", 4), ("nested_paren", 4), ("nominative_overlap", 5), ("odd_v", 5), ("reference", 5),
     ("id_after_odd_page", 3), ("long_digits", 0.4), ("filler", 6), ("hostile", 2), ("section_glued", 2),
-    ("long_backward", 5), ("reference_before", 2), ("same_vol_page_series", 4), ("short_no_volume", 4), ("short_antecedent_elsewhere", 4),
+    ("long_backward", 5), ("reference_before", 2), ("same_vol_page_series", 4), ("short_no_volume", 4), ("short_antecedent_elsewhere", 4), ("huge_pin", 2),
 ]
 
 # focus (qualified function name, without the leading "eyecite.") -> template families
@@ -629,9 +640,9 @@ FOCUS = {
     "helpers.add_pre_citation": [("long_backward", 8), ("reference", 6), ("short_parallel", 4), ("nameless_run", 4), ("bare", 3), ("filler", 2)],
     "helpers.add_post_citation": [("full", 6), ("nested_paren", 6), ("parallel", 5), ("bare", 4), ("placeholder", 2), ("nameless_run", 3)],
     "helpers.process_parenthetical": [("nested_paren", 10), ("full", 4), ("law", 2), ("journal", 2)],
-    "helpers.extract_pin_cite": [("short", 10), ("id", 6), ("supra", 6), ("short_parallel", 4), ("filler", 2)],
+    "helpers.extract_pin_cite": [("huge_pin", 5), ("short", 10), ("id", 6), ("supra", 6), ("short_parallel", 4), ("filler", 2)],
     "helpers.clean_pin_cite": [("short", 6), ("full", 6), ("id", 4), ("journal", 3)],
-    "helpers.match_on_tokens": [("long_backward", 10), ("nested_paren", 4), ("short", 4), ("full", 4), ("supra", 3), ("law", 3), ("long_digits", 1), ("hostile", 3)],
+    "helpers.match_on_tokens": [("huge_pin", 6), ("long_backward", 10), ("nested_paren", 4), ("short", 4), ("full", 4), ("supra", 3), ("law", 3), ("long_digits", 1), ("hostile", 3)],
     "helpers.add_law_metadata": [("law", 10), ("section_glued", 4), ("string_cite", 2)],
     "helpers.add_journal_metadata": [("journal", 10), ("placeholder", 4), ("id_after_odd_page", 2)],
     "helpers.get_year": [("full", 6), ("cal_year", 6), ("bare", 4), ("law", 3), ("journal", 3), ("nameless_run", 3)],
@@ -639,7 +650,7 @@ FOCUS = {
     "helpers.disambiguate_reporters": [("bare", 6), ("full", 6), ("short", 4), ("parallel", 3), ("cal_year", 3)],
     "helpers.filter_citations": [("short_parallel", 8), ("reference", 8), ("parallel", 6), ("string_cite", 4), ("nominative_overlap", 3), ("cal_year", 2)],
     "helpers.overlapping_citations": [("short_parallel", 8), ("reference", 8), ("parallel", 6)],
-    "resolve._has_invalid_pin_cite": [("id_after_odd_page", 12), ("placeholder", 3), ("id", 3), ("long_digits", 1)],
+    "resolve._has_invalid_pin_cite": [("huge_pin", 8), ("id_after_odd_page", 12), ("placeholder", 3), ("id", 3), ("long_digits", 1)],
     "resolve._resolve_id_citation": [("id_after_odd_page", 8), ("id", 6), ("string_cite", 4)],
     "resolve.resolve_citations": [("short_antecedent_elsewhere", 5), ("same_vol_page_series", 5), ("id_after_odd_page", 4), ("reference", 4), ("short", 4), ("supra", 4), ("id", 4), ("full", 4)],
     "tokenizers.Tokenizer.tokenize": [("nominative_overlap", 12), ("full", 3), ("section_glued", 3), ("supra", 2), ("id", 2), ("string_cite", 2), ("hostile", 2)],
